@@ -582,7 +582,8 @@ fn run_hist<N: Sc>(rep: &mut Report, h: &Hist) {
             // inside, so that `<` and `<=` implementations are both accepted)
             let lead = gs[o].to_c();
             rep.count("purge_leading/postcondition_checked", 1);
-            if lead.re.abs() < tol && lead.im.abs() < tol {
+            // (an exactly zero leading coefficient is a "leading 0 coefficient" at every tolerance, 0.0 included)
+            if (lead.re.abs() < tol && lead.im.abs() < tol) || (lead.re == 0.0 && lead.im == 0.0) {
                 rep.violation("history/purge_leading-incomplete", base(&log), format!("after step {} ({}): order() = {} but the coefficient of x^{} is {}, inside the tolerance {:e} ({})", step, desc, o, o, cfmt(lead), tol, fld));
                 return;
             }
@@ -679,7 +680,7 @@ fn gen_op(rng: &mut Rng, complex: bool, tol: f64) -> GenOp {
 }
 
 fn gen_hist(rng: &mut Rng, complex: bool) -> Hist {
-    let tol = if rng.chance(0.7) { None } else { Some(*rng.pick(&[1e-6, 1e-3, 1e-12])) };
+    let tol = if rng.chance(0.7) { None } else { Some(*rng.pick(&[1e-6, 1e-3, 1e-12, 0.0])) };
     let t = tol.unwrap_or(DEFAULT_TOL);
     let via_new = rng.chance(0.15);
     let deg = if rng.chance(0.2) { 0 } else { rng.below(13) };
